@@ -8,7 +8,7 @@
    [reorder] = the order in which the outer SELECT of a wrapper (no ORDER BY) returns its rows. *)
 From Coq Require Import List ZArith Bool Permutation Sorted.
 Import ListNotations.
-From SAV.sql Require Import Limit LimitListProofs LimitFormProofs LimitWhichProofs LimitCacheProofs.
+From SAV.sql Require Import Limit LimitListProofs LimitFormProofs LimitWhichProofs LimitCacheProofs LimitCompoundProofs.
 Open Scope Z_scope.
 
 (* ---- the Z-indexed list programs of the model are firstn / skipn ---- *)
@@ -204,6 +204,44 @@ Theorem c18_cache_transparent : forall d s s', same_key s s' = true ->
 Proof. exact cache_transparent. Qed.
 Print Assumptions c18_cache_transparent.
 
+(* ---- compound selects (UNION ...): only _row_limit_clause is consulted, so where the dialect relies
+   on TOP or on a wrapper the clause is silently not rendered ---- *)
+Theorem c18_compound_dropped_iff : forall d s,
+  compound_dropped d s = true <->
+  has_row_limiting s = true /\
+  ((exists b, d = MSSQL b /\ (use_top s = true \/ b = false)) \/
+   (d = Oracle false /\ fetch_clause s = None)).
+Proof. exact compound_dropped_iff. Qed.
+Print Assumptions c18_compound_dropped_iff.
+
+(* DEFECT: a dropped clause returns every row *)
+Theorem c18_compound_limit_dropped_refuted :
+  exists d s (pre : list Z), nonneg s = true /\ s_ordered s = true /\ compound_dropped d s = true /\
+    forall reorder,
+      exec Z Z.eqb Z.eqb reorder (compound_form d s) (s_distinct s) pre <> spec Z Z.eqb Z.eqb s pre.
+Proof. exact compound_limit_dropped_refuted. Qed.
+Print Assumptions c18_compound_limit_dropped_refuted.
+
+Theorem c18_compound_dropped_returns_all_rows : forall A eqA eqk reorder d s (pre : list A),
+  compound_dropped d s = true ->
+  exec A eqA eqk reorder (compound_form d s) (s_distinct s) pre = result A eqA (s_distinct s) pre.
+Proof. exact compound_dropped_all_rows. Qed.
+Print Assumptions c18_compound_dropped_returns_all_rows.
+
+(* everywhere else a compound select gets the slice, in order (it is never wrapped) *)
+Theorem c18_compound_rows_are_the_slice_guarded : forall A (eqA eqk : A -> A -> bool) reorder (lek : A -> A -> bool),
+  (forall a b c, lek a b = true -> lek b c = true -> lek a c = true) ->
+  (forall a b, eqk a b = lek a b && lek b a) ->
+  forall d s (pre : list A),
+  compound_dropped d s = false ->
+  nonneg s = true ->
+  is_error (compound_form d s) = false ->
+  (d = MySQL -> Z.of_nat (length (result A eqA (s_distinct s) pre)) <= mysql_no_limit) ->
+  (fetch_ties s = true -> StronglySorted (fun a b => lek a b = true) pre) ->
+  exec A eqA eqk reorder (compound_form d s) (s_distinct s) pre = spec A eqA eqk s pre.
+Proof. exact compound_rows_guarded. Qed.
+Print Assumptions c18_compound_rows_are_the_slice_guarded.
+
 (* ---- non-vacuity ---- *)
 (* beyond the end, zero, and the guard / hypotheses are satisfiable *)
 Example c18_ex_mssql_wrapper :
@@ -241,3 +279,8 @@ Example c18_ex_cache_offset_zero_then_five :
   subst 4 5 (which_form (Oracle false) (markers a)) = which_form (Oracle false) b /\
   exec Z Z.eqb Z.eqb (fun l => l) (which_form (Oracle false) b) false [1;2;3;4;5;6;7;8;9;10;11] = [6;7;8;9].
 Proof. vm_compute. repeat split; reflexivity. Qed.
+Example c18_ex_compound_kept :
+  compound_dropped (MSSQL true) (Sel (Limit (Clause true 2)) (Some (Clause true 1)) true false) = false /\
+  exec Z Z.eqb Z.eqb (fun l => l)
+    (compound_form (MSSQL true) (Sel (Limit (Clause true 2)) (Some (Clause true 1)) true false)) false [1;2;3;4] = [2;3].
+Proof. vm_compute. split; reflexivity. Qed.
